@@ -21,7 +21,7 @@ print('obligations (sum over properties):', obl)
 for k in tot:
     print(k, dict(tot[k]), 'distinct entries:', len(seen[k]))
 # benign per round: an entry is silent iff silent under every property that ran it
-for tag in 'rstuv':
+for tag in 'rstuvw':
     ids = [i for i in seen['benign_refactorings'] if '-' + tag in i]
     sil = [i for i in ids if seen['benign_refactorings'][i] == {'silent'}]
     print('benign round', tag, len(sil), 'of', len(ids), 'silent; not silent:', sorted(set(ids) - set(sil)))
